@@ -864,6 +864,10 @@ impl LocalDestination {
             .parent()
             .ok_or_else(|| LocalDestinationErrorKind::FileDoesNotHaveParent(filename.clone()))?;
         fs::create_dir_all(dir).map_err(LocalDestinationErrorKind::DirectoryCreationFailed)?;
+        // an entry which is already present (e.g. from a previous restore) must make way for the link
+        if fs::symlink_metadata(&filename).is_ok() {
+            fs::remove_file(&filename).map_err(LocalDestinationErrorKind::FileRemovalFailed)?;
+        }
         fs::hard_link(&source_path, &filename).map_err(|err| {
             LocalDestinationErrorKind::HardLinkingFailed {
                 source_path,
